@@ -69,6 +69,7 @@ class MetaInjector:
     def __init__(self, rng, sched, enable=True):
         self.rng, self.sched, self.enable = rng, sched, enable
         self.regs = []
+        self._sorted = False
         self.injections = 0
         self.bits_flipped = 0
         self.opportunities = 0
@@ -87,6 +88,11 @@ class MetaInjector:
         if not rising or not self.enable:
             return
         ev = sim.evaluator
+        if not self._sorted:
+            # MultiRegs are lowered in the iteration order of a set of specials (address-dependent): order the injection points by
+            # the creation number of their input signal so that a case consumes its PRNG in the same order in every process
+            self.regs.sort(key=lambda r: (getattr(r[0], "duid", 0), r[2]))
+            self._sorted = True
         for (i, reg0, odom) in self.regs:
             if odom not in rising:
                 continue
